@@ -395,8 +395,11 @@ FatalPushback ==         \* yyunput() beyond the push-back capacity (the buffer 
   /\ phase' = "fatal"
   /\ UNCHANGED <<rs, inited, opt, bvars, cvars, lineno, kvars, wfrom, switched, hist>>
 FatalTooLarge ==         \* %array: the token (with what yymore() kept) does not fit yytext[YYLMAX]
-  /\ opt.array /\ phase = "scan" /\ cur # 0 /\ MatchDecided /\ buf # <<>>
-  /\ LET cs == CandSeq(buf, bol) IN cs # <<>> /\ Len(pfx) + cs[1][2] >= opt.yylmax
+  /\ opt.array /\ phase = "scan" /\ cur # 0 /\ buf # <<>>
+  \* (the text is copied into the array - and its length checked - also when the end of the buffer is reached in
+  \*  the middle of a match: the error may come before the match is decided, on the text scanned so far)
+  /\ \/ MatchDecided /\ LET cs == CandSeq(buf, bol) IN cs # <<>> /\ Len(pfx) + cs[1][2] >= opt.yylmax
+     \/ ~MatchDecided /\ Len(pfx) + Len(buf) >= opt.yylmax
   /\ phase' = "fatal"
   /\ UNCHANGED <<rs, inited, opt, bvars, cvars, lineno, kvars, wfrom, switched, hist>>
 =============================================================================
